@@ -45,6 +45,9 @@ func runC05(c *Ctx) {
 		fn := "align." + spec.Table
 		t, err := findTable(pk, spec.Table)
 		if err != nil {
+			if c.waiveIfNotLiteral("gencode-table", err) {
+				return
+			}
 			L.Unknown("gencode-table", fn, "literal evaluates", "-", err.Error())
 			continue
 		}
@@ -166,6 +169,9 @@ func (c *Ctx) checkIupacTables() {
 	}
 
 	if t, err := findTable(pk, "IupacCode"); err != nil {
+		if c.waiveIfNotLiteral("iupac-table", err) {
+			return
+		}
 		L.Unknown("iupac-table", "align.IupacCode", "literal evaluates", "-", err.Error())
 	} else {
 		kvs, _ := t.Val.([]kv)
@@ -204,6 +210,9 @@ func (c *Ctx) checkIupacTables() {
 	}
 
 	if t, err := findTable(pk, "iupacToInt"); err != nil {
+		if c.waiveIfNotLiteral("iupac-table", err) {
+			return
+		}
 		L.Unknown("iupac-table", "align.iupacToInt", "literal evaluates", "-", err.Error())
 	} else if m, err := mapIntInt(t); err != nil {
 		L.Unknown("iupac-table", "align.iupacToInt", "literal evaluates", c.P.Pos(t.Pos), err.Error())
@@ -227,6 +236,9 @@ func (c *Ctx) checkIupacTables() {
 	}
 
 	if t, err := findTable(pk, "iupacCodeByte"); err != nil {
+		if c.waiveIfNotLiteral("iupac-table", err) {
+			return
+		}
 		L.Unknown("iupac-table", "align.iupacCodeByte", "literal evaluates", "-", err.Error())
 	} else {
 		rows, _ := t.Val.([]interface{})
@@ -327,6 +339,18 @@ func (c *Ctx) checkGeneticCodeDispatch() {
 			if u, ok := in.(*ssa.UnOp); ok && u.Op == token.MUL {
 				if g, ok := u.X.(*ssa.Global); ok {
 					found[k] = append(found[k], g.Name())
+				}
+			}
+		}
+	}
+	// the same dispatch written as a table `var t = map[int]map[string]uint8{GENETIC_CODE_X: xcode, …}`
+	if fd := c.P.Decl(c.origFn(fn)); fd != nil {
+		if tab, _ := c.lookupTableOf("align", fd); len(tab) > 0 {
+			for kname, vname := range tab {
+				if kv := constByName(pk, kname); kv != nil {
+					if k, ok := constant.Int64Val(kv); ok && len(found[k]) == 0 {
+						found[k] = append(found[k], vname)
+					}
 				}
 			}
 		}
@@ -555,6 +579,85 @@ func (c *Ctx) checkCodonFolding() {
 			}
 		}
 	})
+	if len(lookups) == 1 {
+		// one lookup inside a loop over a local array {p1, p2, p3} of the three parameters
+		lk := lookups[0]
+		src, isUpper, hasT, guard, shapeOK := foldKey(fn, lk.Index, 0)
+		okLoop := false
+		var params []string
+		if shapeOK && src != nil && innermostLoopOf(naturalLoops(fn), lk.Block()) != nil {
+			// the element of the array of positions: *(&arr[i]) or (*arr)[i]
+			var arrV ssa.Value
+			if ld, ok := src.(*ssa.UnOp); ok && ld.Op == token.MUL {
+				if ia, ok := ld.X.(*ssa.IndexAddr); ok {
+					arrV = ia.X
+				}
+			}
+			if ix, ok := src.(*ssa.Index); ok {
+				if ld, ok := ix.X.(*ssa.UnOp); ok && ld.Op == token.MUL {
+					arrV = ld.X
+				}
+			}
+			if arrV != nil {
+				{
+					if arr, ok := arrV.(*ssa.Alloc); ok && arr.Referrers() != nil {
+						// `range [3]T{…}` iterates over a copy of the literal: follow the copy
+						for hop := 0; hop < 2; hop++ {
+							for _, ref := range *arr.Referrers() {
+								if st, ok := ref.(*ssa.Store); ok && st.Addr == ssa.Value(arr) {
+									if ld2, ok := st.Val.(*ssa.UnOp); ok && ld2.Op == token.MUL {
+										if src2, ok := ld2.X.(*ssa.Alloc); ok && src2.Referrers() != nil {
+											arr = src2
+										}
+									}
+								}
+							}
+						}
+						seen := map[int64]*ssa.Parameter{}
+						for _, ref := range *arr.Referrers() {
+							ea, ok := ref.(*ssa.IndexAddr)
+							if !ok || ea.Referrers() == nil {
+								continue
+							}
+							k, isK := constInt(ea.Index)
+							if !isK {
+								continue
+							}
+							for _, u := range *ea.Referrers() {
+								if st, ok := u.(*ssa.Store); ok && st.Addr == ssa.Value(ea) {
+									if p, ok := stripConv(st.Val).(*ssa.Parameter); ok {
+										seen[k] = p
+									}
+								}
+							}
+						}
+						distinct := map[*ssa.Parameter]bool{}
+						for _, p := range seen {
+							distinct[p] = true
+							params = append(params, p.Name())
+						}
+						okLoop = len(seen) == 3 && len(distinct) == 3
+					}
+				}
+			}
+		}
+		sort.Strings(params)
+		for i := 1; i <= 3; i++ {
+			name := fmt.Sprintf("lookup %d", i)
+			switch {
+			case !okLoop:
+				L.Unknown("codon-fold", r.label, name, c.P.Pos(lk.Pos()), "a single IupacCode lookup that is not a loop over the three codon positions")
+			case !isUpper:
+				L.Bad("codon-fold", r.label, name, c.P.Pos(lk.Pos()), "lookup key is not derived from unicode.ToUpper(parameter): lower-case nucleotides would translate to X")
+			case !hasT || !guard:
+				L.Bad("codon-fold", r.label, name, c.P.Pos(lk.Pos()), "no U→T rewrite on this codon position: RNA codons would translate to X")
+			default:
+				L.OK("codon-fold", r.label, name, c.P.Pos(lk.Pos()), "one lookup in a loop over the positions "+strings.Join(params, ", ")+": key = φ('T', ToUpper(position)) guarded by == 'U'")
+			}
+		}
+		L.Floor("codon-fold", 3, "3 codon positions")
+		return
+	}
 	if len(lookups) != 3 {
 		L.Unknown("codon-fold", r.label, "three IupacCode lookups", c.P.Pos(fn.Pos()), fmt.Sprintf("found %d lookups of IupacCode, expected 3 (one per codon position)", len(lookups)))
 		return
